@@ -46,7 +46,7 @@ func vfRealEnvelopes(sizes []int, tag byte) []byte {
 // own client and server (real SETTINGS, flow control, frame splitting,
 // concurrent streams, resets), on both ends of real TCP connections.
 func TestVerifC15RealTraffic(t *testing.T) {
-	rep := verifkit.Begin("C15", "real-traffic", "x/net/http2 Transport and Server talking over loopback TCP with the connection tracer wrapped around both ends; per connection 2-12 concurrent calls with 0-4 request and 0-5 response messages of 0 B-300 KB (beyond the flow-control window), request bodies written at once or through a pipe with pauses, endings {trailers, handler abort after k messages (RST_STREAM), client cancel after k messages}; oracle: the call itself behaves as without tracing (payload checksums echoed), and on BOTH sides exactly one trace per named call whose request/response message events equal the messages sent (a prefix for aborted/cancelled calls) with the right status and trailers; distinct = (plan, side)")
+	rep := verifkit.Begin("C15", "real-traffic", "x/net/http2 Transport and Server talking over loopback TCP with the connection tracer wrapped around both ends, in three HPACK configurations (defaults; only the server / only the client advertises a 64 KB header table and the peer's encoder uses it) with 24 sizeable headers per message; per connection 2-12 concurrent calls with 0-4 request and 0-5 response messages of 0 B-300 KB (beyond the flow-control window), request bodies written at once or through a pipe with pauses, endings {trailers, handler abort after k messages (RST_STREAM), client cancel after k messages}; oracle: the call itself behaves as without tracing (payload checksums echoed), and on BOTH sides exactly one trace per named call whose request/response message events equal the messages sent (a prefix for aborted/cancelled calls) with the right status and trailers; distinct = (plan, side)")
 	defer rep.Write()
 	srvColl, cliColl := &vfCountingCollector{}, &vfCountingCollector{}
 	var plansMu sync.Mutex
@@ -64,6 +64,9 @@ func TestVerifC15RealTraffic(t *testing.T) {
 			w.Header().Set("X-Request-Bytes", strconv.Itoa(len(body)))
 		}
 		w.Header().Set("Content-Type", "application/grpc")
+		for k := 0; k < 24; k++ {
+			w.Header().Set(fmt.Sprintf("X-Resp-Big-%d", k), strings.Repeat("r", 280)+strconv.Itoa(k))
+		}
 		w.Header().Set("Trailer", "Grpc-Status")
 		w.WriteHeader(200)
 		if f, ok := w.(http.Flusher); ok {
@@ -95,23 +98,29 @@ func TestVerifC15RealTraffic(t *testing.T) {
 		<-drained
 		w.Header().Set("Grpc-Status", "0")
 	})
-	ln, err := net.Listen("tcp", "127.0.0.1:0")
-	if err != nil {
-		rep.Inconcl("listen: " + err.Error())
-		return
-	}
-	defer ln.Close()
-	h2s := &http2.Server{}
-	go func() {
-		for {
-			c, err := ln.Accept()
-			if err != nil {
-				return
-			}
-			tc := TracingHTTP2Conn(c, true, srvColl)
-			go h2s.ServeConn(tc, &http2.ServeConnOpts{Handler: handler})
+	// three endpoint configurations: defaults; only the server advertises a larger HPACK table (and the client's
+	// encoder uses it); only the client does (and the server's encoder uses it)
+	servers := []*http2.Server{{}, {MaxDecoderHeaderTableSize: 65536}, {MaxEncoderHeaderTableSize: 65536}}
+	var lns []net.Listener
+	for _, h2s := range servers {
+		ln, err := net.Listen("tcp", "127.0.0.1:0")
+		if err != nil {
+			rep.Inconcl("listen: " + err.Error())
+			return
 		}
-	}()
+		defer ln.Close()
+		lns = append(lns, ln)
+		go func(ln net.Listener, h2s *http2.Server) {
+			for {
+				c, err := ln.Accept()
+				if err != nil {
+					return
+				}
+				tc := TracingHTTP2Conn(c, true, srvColl)
+				go h2s.ServeConn(tc, &http2.ServeConnOpts{Handler: handler})
+			}
+		}(ln, h2s)
+	}
 	nConns := verifkit.Scale(40, 1500)
 	type outcome struct {
 		plan     *vfRealPlan
@@ -124,6 +133,8 @@ func TestVerifC15RealTraffic(t *testing.T) {
 	var all []*outcome
 	for ci := 0; ci < nConns; ci++ {
 		rng := verifkit.Stream("c15real", ci)
+		variant := ci % 3
+		ln := lns[variant]
 		tr := &http2.Transport{AllowHTTP: true, DialTLSContext: func(ctx context.Context, network, addr string, _ *tls.Config) (net.Conn, error) {
 			c, err := net.Dial("tcp", ln.Addr().String())
 			if err != nil {
@@ -131,6 +142,13 @@ func TestVerifC15RealTraffic(t *testing.T) {
 			}
 			return TracingHTTP2Conn(c, false, cliColl), nil
 		}}
+		switch variant {
+		case 1:
+			tr.MaxEncoderHeaderTableSize = 65536
+		case 2:
+			tr.MaxDecoderHeaderTableSize = 65536
+		}
+		rep.Count(fmt.Sprintf("connections_hpack_variant_%d", variant), 1)
 		nCalls := 2 + rng.Intn(11)
 		var wg sync.WaitGroup
 		outs := make([]*outcome, nCalls)
@@ -182,6 +200,10 @@ func TestVerifC15RealTraffic(t *testing.T) {
 				req.Header.Set("Content-Type", "application/grpc")
 				req.Header.Set("Te", "trailers")
 				req.Header.Set("X-Test-Case-Name", p.Name)
+				for k := 0; k < 24; k++ {
+					// the same sizeable headers on every call: > 4 KB of HPACK dynamic table once they are indexed
+					req.Header.Set(fmt.Sprintf("X-Big-%d", k), strings.Repeat("v", 280)+strconv.Itoa(k))
+				}
 				resp, err := tr.RoundTrip(req)
 				if err != nil {
 					o.err = err.Error()
@@ -282,6 +304,9 @@ func TestVerifC15RealTraffic(t *testing.T) {
 			}
 			if ts[0].Response == nil || ts[0].Response.StatusCode != 200 || ts[0].Response.Trailer.Get("Grpc-Status") != "0" {
 				rep.Violation("h2/real/status-or-trailers/"+side, fmt.Sprintf("call %s: trace response %+v, want 200 with trailer grpc-status 0", p.Name, ts[0].Response), w)
+			}
+			if ts[0].Request == nil || ts[0].Request.Header.Get("X-Big-23") != strings.Repeat("v", 280)+"23" || ts[0].Response == nil || ts[0].Response.Header.Get("X-Resp-Big-17") != strings.Repeat("r", 280)+"17" {
+				rep.Violation("h2/real/big-headers/"+side, fmt.Sprintf("call %s: the 24 sizeable request/response headers are not in the trace as sent (HPACK state)", p.Name), w)
 			}
 			if ts[0].Err != nil {
 				rep.Violation("h2/real/error-on-clean-call/"+side, fmt.Sprintf("call %s ended normally; trace carries %v", p.Name, ts[0].Err), w)
